@@ -150,6 +150,23 @@ def cases(tier, rng):
             for layout in ("C", "F", "T", "strided", "neg"):
                 for entry in ("as_encoded_array", "encode"):
                     yield {"op": "enc_2d", "enc": n, "rows": rows, "layout": layout, "entry": entry, "foreign": foreign}
+    # text handed over as integer CODES wider than a byte (int16 … int64 arrays of code points: UTF-16 units, map(ord, …)), flat and ragged:
+    # a code >= 256 is never a letter, whatever its low byte is
+    for n in ENC_NAMES:
+        A = _static_alphabet(n)
+        for _ in range(30 if tier != "quick" else 8):
+            rows = [[rng.choice(A) for _ in range(rng.choice([1, 2, 4]))] for _ in range(rng.choice([1, 2, 3]))]
+            foreign = None
+            if rng.random() < 0.6:
+                i = rng.randrange(len(rows))
+                j = rng.randrange(len(rows[i]))
+                foreign = rng.choice([256, 512, 65536]) * rng.choice([1, 1, 3]) + rng.choice(A)      # congruent to a letter modulo 256
+                rows[i][j] = foreign
+            for dt in ("int16", "uint16", "int32", "int64"):
+                if foreign is not None and foreign > 32000 and dt in ("int16", "uint16"):
+                    continue
+                for shape in ("flat", "ragged"):
+                    yield {"op": "enc_wide", "enc": n, "rows": rows, "dtype": dt, "shape": shape, "foreign": foreign}
     for n in OFFSET_NAMES:
         for b in range(256):
             yield {"op": "offset_byte", "enc": n, "b": b}
@@ -247,6 +264,8 @@ def nontrivial(c):
         return c["src"] != c["tgt"]
     if c["op"] == "enc_np":
         return True
+    if c["op"] == "enc_wide":
+        return True
     if c["op"] == "enc_2d":
         return c["layout"] != "C" and len(c["rows"]) > 1 and len(c["rows"][0]) > 1
     flat = c["s"] if "s" in c else [x for r in c["rows"] for x in r]
@@ -296,6 +315,15 @@ def impl(c):
                 r = as_encoded_array(EncodedArray(np.array(s, dtype=np.uint8), BaseEncoding), E)
             return {"codes": [int(x) for x in np.asarray(r.raw()).ravel()], "dec": [int(x) for x in E.decode(r).raw().ravel()],
                     "enc_same": r.encoding == E}
+        if op == "enc_wide":
+            E = _encs()[c["enc"]]
+            flat = np.array([x for r in c["rows"] for x in r], dtype=c["dtype"])
+            x = EncodedArray(flat, BaseEncoding)
+            if c["shape"] == "ragged":
+                x = EncodedRaggedArray(x, [len(r) for r in c["rows"]])
+            r = as_encoded_array(x, E)
+            d = E.decode(r)
+            return {"flat": [int(b) for b in np.asarray(d.ravel().raw() if hasattr(d.ravel(), "raw") else d.ravel())], "enc_same": r.encoding == E}
         if op == "enc_2d":
             E = _encs()[c["enc"]]
             block = np.array(c["rows"], dtype=np.uint8)
@@ -376,7 +404,7 @@ def impl(c):
         off = getattr(e, "offset", None)
         return {"err": "encoding", "offset": int(off) if (off is not None and op in ("enc_str",)) else None}
     except Exception as e:
-        if op == "enc_np" and c["foreign"] is not None:
+        if op in ("enc_np", "enc_wide") and c["foreign"] is not None:
             return {"err": "encoding", "offset": None}     # any exception rejects the foreign character (NumPy-level code points raise OverflowError)
         if op in ("retarget", "change", "retarget_view", "change_view", "assign"):
             # the property allows these to raise (any exception) instead of returning data; only silent change is a failure
@@ -439,6 +467,10 @@ def oracle(c):
     if op in ("retarget", "change", "assign"):
         return {"text_or_error": [_up(b) for b in c["s"]]}
     A = _static_alphabet(c["enc"])
+    if op == "enc_wide":
+        if c["foreign"] is not None:
+            return {"err": "encoding", "offset": None}
+        return {"flat": [_up(b) for r in c["rows"] for b in r], "enc_same": True}
     if op == "enc_2d":
         if c["foreign"] is not None:
             return {"err": "encoding", "offset": None}
@@ -490,6 +522,8 @@ def agree(c, got, exp):
 def model_request(c):
     if c["op"] == "assign":
         return None        # decided against the oracle: same text or an error (the model's retarget rule is compared by the retarget op)
+    if c["op"] == "enc_wide":
+        return None        # storage width of the codes has no counterpart in the model (a code is a number): decided against the oracle
     if c["op"] == "enc_2d":
         return None        # memory layout has no counterpart in the model (a block IS its rows): decided against the oracle
     if c["op"] == "enc_np":
@@ -504,7 +538,7 @@ def finding_key(c, got, exp):
     op = c["op"]
     if op in ("offset_byte", "offset_rows"):
         return "offset-encoding:" + c["enc"]
-    if op in ("enc_byte", "enc_str", "enc_ragged", "enc_np", "enc_2d"):
+    if op in ("enc_byte", "enc_str", "enc_ragged", "enc_np", "enc_2d", "enc_wide"):
         if isinstance(got, dict) and "err" not in got and "err" in exp:
             return "encode:accepts-foreign-byte"
         if isinstance(got, dict) and "err" in got and "err" not in exp:
@@ -590,6 +624,8 @@ def tags(c, got):
         t.append("enc:" + str(c["enc"]))
     if c["op"] in ("retarget", "change", "retarget_view", "change_view"):
         t.append("pair:" + ("predefined" if c.get("names") else "custom") + (":same" if c["src"] == c["tgt"] else ":different"))
+    if c["op"] == "enc_wide":
+        t += ["code-dtype:" + c["dtype"], "shape:" + c["shape"], "foreign:" + ("none" if c["foreign"] is None else ">=256")]
     if c["op"] == "enc_2d":
         t += ["layout:" + c["layout"], "entry:" + c["entry"]]
     if c["op"] == "enc_np":
